@@ -659,7 +659,7 @@ def run(tier: str, seed: int, replay=None) -> int:
     ]
     rep.assume = [
         "proved fragment Fx (computed in Coq per case): no next_rule (C08_rules; the construction itself is proved for every program, C08_build_all), "
-        "or exactly one next_rule, written last at the top level, without refinements and with a conclusion of its own (C08_rules_next, up to permutation); "
+        "or exactly one next_rule, written last at the top level, possibly with refinements of its own (no alternative/next_rule in its block) and with conclusions of its own (C08_rules_next, C08_rules_next2, up to permutation); "
         "other next_rule programs are compared with the faithful model and the Spec, the class later_ref_next with the model only",
         "two-variable programs are NOT covered by the Coq model or the theorems: they are compared implementation vs Spec (rdr over the elements (c.k, c.parent.a)); "
         "a disagreement is a VIOLATION unless it has the narrow signature of the open findings C08-h/i (only missing instances, each built from a body shared by >= 2 connections, in a program that also concludes from the body alone)",
